@@ -30,7 +30,7 @@ def impl(case):
             # the grammar object is GROWN after it has been trimmed / cotrimmed / evaluated once (memoised results must follow)
             gl = common.mk_cfg(dict(case["cfg"], rules=case["cfg"]["rules"][:k]), R)
             try:
-                gl.cotrim(); gl.trim(); gl.agenda()
+                gl.cotrim(); gl.trim(); gl.agenda(); gl.rhs; gl.language(1); locally_normalize(gl)
             except Exception:  # noqa
                 pass
             for w, hd, b in case["cfg"]["rules"][k:]:
